@@ -179,6 +179,10 @@ def interruption_cases(pid, seed, tier, *, K=(10, 16), kinds=None, dev_faults=0.
             d = {"do": rng.choice(decisions or gen.DECISIONS)}
             if d["do"] == "resume" and rng.random() < 0.5:
                 d["inject"] = gen.gen_injections(rng, n, kinds=kinds, k=1)
+                if rng.random() < 0.3:
+                    # right after the change of state: while resume() is still notifying the devices from the
+                    # calling thread, or during the first replayed messages
+                    d["inject"][0]["at"]["step"] = rng.randrange(0, 5)
                 for i in d["inject"]:
                     if i["do"] == "trip":
                         i["args"] = trip_args(rng)
@@ -190,6 +194,51 @@ def interruption_cases(pid, seed, tier, *, K=(10, 16), kinds=None, dev_faults=0.
         yield c
     if dev_faults > 0:
         yield from engine_side_cases(rng, base, dv)
+
+
+def resume_window_cases(pid, seed, tier, *, K=(4, 10)):
+    """A request that lands while resume() is still notifying the Pausable devices one by one from the calling
+    thread (or during the very first replayed messages); the plan's clean-up touches a device nothing had
+    touched before, so the engine's device bookkeeping changes under that notification."""
+    rng = gen.rng_for(pid, seed, "resume-window")
+    specs = gen.gen_world(rng, motors=2, dets=2, flyers=0, p_async=0.3, pausable=0.0)
+    for d in ("d1", "d2", "m1"):
+        if rng.random() < 0.7:
+            specs[d]["kind"] = "p" + specs[d]["kind"]
+            if rng.random() < 0.4:
+                specs[d].setdefault("async", {})["resume"] = rng.choice([0.0, 0.05])
+    pg = gen.PlanGen(rng, specs)
+    S = pg.S
+    pg.motors = ["m1"]
+    body = pg.run_block(monitor=0.0, fly=0.0)
+    g = pg.group()
+    fin = [msg(S, "set", "m2", 1.0, group=g), msg(S, "wait", None, group=g), msg(S, "null")]
+    if rng.random() < 0.5:
+        fin = [msg(S, "stage", "m2"), msg(S, "unstage", "m2")] + fin
+    base = {
+        "prop": pid,
+        "seed": seed,
+        "sim": {"handle_cost": 0.0},
+        "re": {"record_interruptions": rng.random() < 0.3},
+        "devices": specs,
+        "suspenders": {},
+        "script": [
+            {"do": "call", "plan": [{"op": "try", "site": S(), "body": body, "finally": fin}], "main": True},
+            {"do": "call", "plan": [msg(S, "null")], "tag": "followup-null"},
+        ],
+    }
+    dry, dv, n = dry_run(base)
+    for j in range(K[0] if tier == "quick" else K[1]):
+        c = copy.deepcopy(base)
+        c["variant"] = f"resume-window-{j}"
+        c["script"][0]["inject"] = [{"id": "p0", "at": {"step": rng.randrange(2, max(3, n - 2))}, "do": rng.choice(["pause", "pause", "dpause"])}]
+        c["script"][0]["decisions"] = [
+            {"do": "resume", "inject": [{"id": "r0", "at": {"step": rng.randrange(0, 6)}, "do": rng.choice(["abort", "stop", "halt", "pause"])}]},
+            {"do": rng.choice(["resume", "abort", "stop"])},
+            {"do": "resume"},
+        ]
+        c["script"][0]["settle"] = "idle"
+        yield c
 
 
 def engine_side_cases(rng, base, dv, k=2):
@@ -205,4 +254,13 @@ def engine_side_cases(rng, base, dv, k=2):
         occ = rng.randrange(0, n)
         c["variant"] = f"engine-side-{d}.{m}#{occ}"
         c["devices"][d].setdefault("faults", {})[f"{m}#{occ}"] = {"kind": "raise", "exc": "RuntimeError"}
+        yield c
+    # ... and one in which the method keeps failing from some occurrence on (a device that went away): the
+    # engine's retries and its second line of clean-up meet the same refusal
+    if eng:
+        d, m, n = rng.choice(eng)
+        c = copy.deepcopy(base)
+        occ = rng.randrange(0, n)
+        c["variant"] = f"engine-side-sticky-{d}.{m}#{occ}+"
+        c["devices"][d].setdefault("faults", {})[f"{m}#{occ}+"] = {"kind": "raise", "exc": "RuntimeError"}
         yield c
